@@ -17,6 +17,11 @@ static void BASE_SAMPLE(void) { __CPROVER_assert(ver + 1 < VMAX, "model capacity
 static void PHS_SAMPLE(void) { draws++; }
 static void CREATE_FULL_STATE(void) { __CPROVER_assert(ver + 1 < VMAX, "model capacity"); ver++; base_sample_last = false; }
 static double HEUR(void) { return COSTV[ver]; }
+#ifdef DIRECT_SAMPLER
+double BASEV[VMAX]; static double HEUR_BASE(void) { return BASEV[ver]; }      /* the base-class heuristic: another function of the state */
+#else
+#define HEUR_BASE HEUR                                                        /* RejectionInfSampler inherits it */
+#endif
 static bool BETTER_H_MAX(double h, double maxc) { cost_tested_ver = ver; cost_ok = (h < maxc); return cost_ok; }
 static bool NOT_BELOW_MIN(double minc, double h) { lower_tested_ver = ver; lower_ok = !(h < minc); return lower_ok; }
 static bool IN_ANY_PHS(void) { phs_tested_ver = ver; phs_ok = INPHS[ver]; return phs_ok; }
